@@ -137,6 +137,49 @@ def job_integer(vec):
     return problems
 
 
+def separators_in_a_cid(report):
+    """
+    'Decimal - a number written with the data format's decimal and thousands separators': the separators are those of the
+    complete CID, wherever their D rows stand -- before the field, after it, after a field that has an example (which is
+    judged when its row is read). The oracle: every placement gives the verdicts and values of the placement 'D rows first',
+    and those are the literal ones listed here.
+    """
+    import io
+    import cutplace
+    from cutplace import errors
+    cells = {"17": 1700, "17,25": 1725, "1.234,5": 123450, "17.25": 172500, "0,5": 50, "1,234.5": None, "1,2,3": None, "12,3.4": None}
+    separators = [["D", "Decimal separator", ","], ["D", "Thousands separator", "."]]
+    for example in ("", "17", "1.700", "17,5"):
+        field = ["F", "amount", example, "", "", "Decimal", ""]
+        placements = {"first": [["D", "Format", "delimited"], ["D", "Item delimiter", ";"]] + separators + [field],
+                      "last": [["D", "Format", "delimited"], ["D", "Item delimiter", ";"], field] + separators,
+                      "around": [["D", "Format", "delimited"], ["D", "Item delimiter", ";"], separators[0], field, separators[1]]}
+        for where, rows in sorted(placements.items()):
+            if where != "first" and example in ("1.700", "17,5"):
+                continue  # (an example is judged by the format as it is when its row is read: only 'first' must load)
+            report.replayed += 1
+            cid = cutplace.Cid()
+            try:
+                cid.read("cid", rows)
+            except Exception as error:  # noqa
+                report.violation("c02", {"separators": where, "example": example}, "loads", str(error),
+                                 "CID with the separator rows %s and example %r cannot be read: %s: %s" % (where, example, type(error).__name__, error))
+                continue
+            for cell, want in sorted(cells.items()):
+                try:
+                    got = "accept" if list(cutplace.rows(cid, io.StringIO(cell + "\r\n", newline=""))) == [[cell]] else "row changed"
+                except errors.DataError:
+                    got = "reject"
+                except Exception as error:  # noqa
+                    got = "%s: %s" % (type(error).__name__, error)
+                expected = "reject" if want is None else "accept"
+                if got != expected:
+                    report.violation("c02", {"separators": where, "example": example, "cell": cell}, expected, got,
+                                     "Decimal field, decimal separator ',' and thousands separator '.' declared %s the field (example %r): "
+                                     "cell %r is %sed but must be %sed" % (where if where != "around" else "before and after", example, cell, got, expected))
+    report.notes["separators_in_a_cid"] = "separator D rows before, after and around a Decimal field with and without an example"
+
+
 def long_decimals(report):
     """
     Decimal cells with more digits than the model holds (TLC's integers have 32 bits): 29 to 40 significant digits, at and
@@ -291,22 +334,29 @@ def _job_decimal_rule(vec, cell, rule):
         variants += [("excel", {}), ("ods", {})]
     # "late": the separators are set after the field was declared (a D row may follow the F rows of a CID); what counts is
     # the data format as it is when data are validated
-    variants += [(fmt + ":late", properties) for fmt, properties in variants[:2]]
+    # "used": ... and an example of the field ("7", a number under every convention) was validated before that D row came
+    variants += [(fmt + ":late", properties) for fmt, properties in variants[:2]] + [(fmt + ":used", properties) for fmt, properties in variants[:2]]
     for fmt, properties in variants:
-        late = fmt.endswith(":late")
+        late = fmt.endswith(":late") or fmt.endswith(":used")
+        used = fmt.endswith(":used")
         fmt = fmt.split(":")[0]
         length = str(len(cell)) if fmt == "fixed" else ""
         if late:
             from cutplace import data
             fresh = data.DataFormat(fmt)
             field, failure = declare("DecimalFieldFormat", "f", False, length, rule, fresh)
+            if used and field is not None:
+                try:
+                    field.validated_value("7")
+                except Exception:  # noqa
+                    pass
             for name, value in sorted(properties.items()):
                 fresh.set_property(name, value)
             fresh.validate()
         else:
             field, failure = declare("DecimalFieldFormat", "f", False, length, rule, data_format(fmt, **properties))
         what = "Decimal field (format %s, decimal separator %r, thousands separator %r%s, rule %r)" % (
-            fmt, ds, ts, " set after the field was declared" if late else "", rule)
+            fmt, ds, ts, (" set after the field was declared" + (" and an example was validated" if used else "")) if late else "", rule)
         if field is None:
             problems.append("%s cannot be declared: %s" % (what, failure[1]))
             continue
@@ -446,6 +496,7 @@ def run(tier, report):
     if tier == "thorough":
         sweep_integers(report)
     long_decimals(report)
+    separators_in_a_cid(report)
     if not report.violations:
         for family, vec in jobs:
             if family == "decimal" and vec["expected"][0] == "accept":
